@@ -291,10 +291,48 @@ def run_two_sessions(impl, cfg, out, stats):
                         w.teardown()
 
 
+def run_overlap(impl, cfg, out, stats):
+    """A long-poll is pending (Origin A) when a POST of the same session arrives with another allowed Origin B (or none); then
+    a send releases the poll: every response carries the grant of its own request."""
+    allowed = {'star': ['http://one.example', 'http://two.example'], 'list': [LISTED, 'http://h']}[cfg]
+    for oa in allowed + [None]:
+        for ob in allowed + [None]:
+            if oa == ob:
+                continue
+            w, sid = prepare(impl, cfg, True)
+            stats['worlds'] += 1
+            try:
+                peer.poll(w, sid)                      # drains the queued packet
+                g = w.http('GET', peer.BASEQ + '&sid=' + sid, headers=request_headers(oa, 'h', None, None), host='h')
+                w.run()
+                r = w.http('POST', peer.BASEQ + '&sid=' + sid, headers=request_headers(ob, 'h', None, None), host='h', body=b'4x')
+                w.run()
+                w.call('send', sid, 'release')
+                w.run()
+                stats['requests'] += 2
+                for name, req, org in (('pending GET', g, oa), ('POST', r, ob)):
+                    acao = [v for k, v in (req.resp_headers or []) if k.lower() == 'access-control-allow-origin']
+                    want = [org] if org is not None else []
+                    if req.done and req.status == 200 and acao != want and not (cfg == 'star' and org is None and acao in ([], ['*'])):
+                        out.append(report.Violation(
+                            {'impl': impl, 'kind': 'acao_overgrant', 'trigger': 'overlapping_requests cfg=%s' % cfg},
+                            '[%s cfg=%s] a poll with Origin %r was pending while a POST with Origin %r was served: the %s answered with '
+                            'Access-Control-Allow-Origin %r, want %r' % (impl, cfg, oa, ob, name, acao, want),
+                            {'harness': 'overlap', 'impl': impl, 'cfg': cfg}, weight=(2, 0)))
+            finally:
+                w.teardown()
+
+
 def _work(chunk):
     out = []
     stats = {'worlds': 0, 'requests': 0}
     for impl, cfg, cred, cases in chunk:
+        if cases == 'OVERLAP':
+            try:
+                run_overlap(impl, cfg, out, stats)
+            except report.Livelock as e:
+                out.append(report.livelock_violation(impl, e, {'harness': 'overlap', 'impl': impl, 'cfg': cfg}))
+            continue
         if cases == 'TWO':
             try:
                 run_two_sessions(impl, cfg, out, stats)
@@ -335,6 +373,8 @@ def run(ctx):
             jobs.append((impl, cfg, True, 'PAIRS'))
         for cfg in ('none', 'star', 'empty'):
             jobs.append((impl, cfg, True, 'TWO'))
+        for cfg in ('star', 'list'):
+            jobs.append((impl, cfg, True, 'OVERLAP'))
     res = parallel.pmap_chunks(_work, [[j] for j in jobs], ctx.workers, ctx.seed, maxtasks=4)
     tot = {}
     nv = 0
@@ -350,7 +390,7 @@ def run(ctx):
         'rule': 'cors_allowed_origins {None,*,string,list,callable,[]} x credentials x 14 Origin values x Host {h, absent} x '
                 'X-Forwarded-Proto(%d) x X-Forwarded-Host(%d) x request kind {open, poll, post with a MESSAGE, '
                 'WebSocket upgrade, OPTIONS, OPTIONS+sid} x {Server, AsyncServer}; plus request pairs on one server (a first request with '
-                'X-Forwarded-* headers or with an allowed / case-variant / foreign Origin, then a second without forwarded headers) judged on the second alone: against the reference (for a callable the predicate itself) and differentially against the same request on a fresh server; and a state with two sessions, each opened and used through its own host with its own origin, in which every (session, host, origin, kind) request is judged on its own. Non-trivial = requests bearing an Origin header.'
+                'X-Forwarded-* headers or with an allowed / case-variant / foreign Origin, then a second without forwarded headers) judged on the second alone: against the reference (for a callable the predicate itself) and differentially against the same request on a fresh server; and a state with two sessions, each opened and used through its own host with its own origin, in which every (session, host, origin, kind) request is judged on its own; and a pending poll overlapped by a POST of the same session with another allowed Origin (each response carries the grant of its own request). Non-trivial = requests bearing an Origin header.'
                 % (len(xfps), len(xfhs)),
         'samples': [{'cfg': 'string', 'origin': 'http://liste', 'kind': 'post'},
                     {'cfg': 'none', 'origin': 'https://pub.example', 'XFP': 'https', 'XFH': 'pub.example, inner.lan', 'kind': 'upgrade'},
@@ -371,6 +411,11 @@ def replay(ctx, payload):
     r = payload['replay']
     out = []
     st = {'worlds': 0, 'requests': 0}
+    if r.get('harness') == 'overlap':
+        run_overlap(r['impl'], r['cfg'], out, st)
+        for v in out[:5]:
+            print('REPLAY VIOLATION:', v.text)
+        return 1 if out else 0
     if r.get('harness') == 'two':
         run_two_sessions(r['impl'], r['cfg'], out, st)
         for v in out[:5]:
